@@ -139,6 +139,16 @@ def check(run):
         org = [float(c) + 0.3 for c in s1.center] if far else [0.1, -0.2, 0.3]
         one_case(run, [s1, s2], org, [rng.choice(triples) for _ in range(2)] + [(0, 0, 0), (1, 0, 0)], None, "off")
         run.count("nearly coincident centres")
+    from checks.common import sp_family, structured_transforms
+    for k, ls in enumerate([(0, 1), (0, 2), (1, 2), (0, 1, 2)]):
+        specs = sp_family(rng, ls, two_centres=(k % 2 == 0) or run.tier != "quick")
+        for sp_ in (specs, list(reversed(specs))):
+            one_case(run, sp_, [0.3, -0.1, 0.2], [(1, 0, 0), (0, 2, 1), (0, 0, 0), rng.choice(triples)], None, "off")
+        run.count("SP-type shared exponent arrays")
+    specs = random_basis(rng, 2, 2, lmax=2)
+    for lab, T in structured_transforms(rng, sum(s_.size for s_ in specs)):
+        one_case(run, specs, [0.3, -0.1, 0.2], [(1, 0, 0), (0, 1, 1), (0, 0, 0)], T, "off")
+        run.count("transform " + lab)
     for _ in range(4 if run.tier == "quick" else 30):
         specs = random_basis(rng, 1, 3, lmax=3)
         relations(run, specs, [core.snap(rng.uniform(-1, 1), 8) for _ in range(3)])
